@@ -119,6 +119,9 @@ class PVLDecoder(object):
         as an unquoted string, based on this decoder's grammar.
         Raises a ValueError otherwise.
         """
+        if len(value) == 0:
+            raise ValueError("An Unquoted String must not be empty.")
+
         for coll in (
             ("a comment", chain.from_iterable(self.grammar.comments)),
             ("some whitespace", self.grammar.whitespace),
